@@ -75,7 +75,10 @@ class Gen:
         params = {}
         for name in sd.NAMES:
             if r.random() < 0.4:
-                d = self.pick_dist(s, name, compat=0.9)
+                d = self.pick_dist(s, name, compat=1.0)
+                R = self.studies[s - 1]["R"].get(name, set()) if 1 <= s <= len(self.studies) else set()
+                if any(o != _dkey(d) for o in R):
+                    continue      # D13: templates never carry a distribution incompatible with the study's record
                 params[name] = {"d": d, "v": r.choice(sd.param_vals_for(d))}
         return {"has": 1, "state": state, "values": values, "params": params,
                 "ua": {k: r.randrange(len(sd.ATTRS)) for k in sd.KEYS if r.random() < 0.4},
